@@ -40,8 +40,9 @@ const (
 		"     </capabilities>\n" +
 		"</hello>]]>]]>"
 
-	helloPattern      = `(?is)(<(\w+:)?hello.*</(\w+:)?hello>)`
-	capabilityPattern = `(?i)(?:<(?:\w+:)?capability>)(.*?)(?:</(?:\w+:)?capability>)`
+	// a namespace prefix is any xml name (letters, digits, '_', '-', '.'), not only \w characters
+	helloPattern      = `(?is)(<([\w.\-]+:)?hello.*</([\w.\-]+:)?hello>)`
+	capabilityPattern = `(?i)(?:<(?:[\w.\-]+:)?capability>)(.*?)(?:</(?:[\w.\-]+:)?capability>)`
 
 	messageIDPattern      = `(?i)(?:message-id=["'](\d+)["'])`
 	subscriptionIDPattern = `(?i)<subscription-id.*>(\d+)</subscription-id>`
@@ -59,7 +60,7 @@ const (
 
 	initialMessageID = 101
 
-	sessionID = `(?i)<(?:\w+:)?session-id>(\d+)</(?:\w+:)?session-id>`
+	sessionID = `(?i)<(?:[\w.\-]+:)?session-id>(\d+)</(?:[\w.\-]+:)?session-id>`
 )
 
 type netconfPatterns struct {
